@@ -92,6 +92,7 @@ def _drive(sim, plan):
   running = [None]
   overlap = []
   done = set()
+  values = []       # resumed with something else than the hub's value
   blocked = {}      # tno -> task object currently in `yield False`
   expect_dead = set()
   tasks = {}
@@ -130,7 +131,14 @@ def _drive(sim, plan):
           log.setdefault(tno, []).append((i, now, due))
           sim.ev("step", tno, i, round(now - t0, 6))
           running[0] = None
-          yield y
+          v = yield y
+          # what the hub hands back to a task whose wait timed out
+          # (a wait whose time has already come may be resumed at once,
+          # without going through the hub)
+          if k in ("sleep", "float", "abs", "selto") and y != 0 \
+              and due is not None and due > now + S.EPS \
+              and v != ([], [], []):
+            values.append((tno, i, k, repr(v)[:60]))
         log.setdefault(tno, []).append((len(prog), sim.now, None))
         done.add(tno)
     t = PT()
@@ -199,6 +207,10 @@ def _drive(sim, plan):
                       % (t.name, t.error[0], t.error[1], t.error[2][-400:]))
   if overlap:
     raise Violation("overlap", "task steps overlapped: %r" % (overlap[:3],))
+  if values:
+    raise Violation("resume-value", "a timed wait was resumed with a value "
+                    "other than the hub's ([], [], []): (task, step, op, "
+                    "value) = %r" % (values[:3],))
   if len(sim.task_deaths) != len(expect_dead):
     raise Violation("deaths", "%d task(s) were de-scheduled by an exception, "
                     "%d were programmed to raise: %r"
